@@ -108,8 +108,8 @@ PROPS = {
              "hooks; distinct = distinct (graph, histories, trace hash); non-trivial = the history contains at least one Run and one eviction",
         assumptions=_ASSUME_B + ["inputs change only inside the exclusive cleanup of EvictWithCleanup, for exactly the evicted keys (the documented usage)",
                                  "an eviction reaches Executor.dirty.Lock only when no Run is active (a goroutine blocked on a mutex is invisible to synctest); TryLock probes inside Execute and cleanup check that the lock is really held",
-                                 "a cancelled Run may itself fail with the cancellation error; a query whose Execute propagated that error (or a dependency's) is recorded by the model as a 'poisoned' memo entry, and only for such an entry may another Run see the cancellation error instead of the value (the executor memoises what Execute returned); a result without an error must always be the right value",
-                                 "evictions that overlap the execution of a straggler of a cancelled Run (which runs after that Run dropped the shared lock) are not explored"],
+                                 "a cancelled Run may itself fail with the cancellation error; every other Run must get the right values (a cancellation error in a live Run's results is a violation: what a query returns while its Run's context is done is not memoised)",
+                                 "an eviction is not scheduled while goroutines that a (cancelled) Run left behind are still alive: they hold no lock, and what an eviction does to the tasks they lead is outside the property and the model"],
     ),
     "C34": dict(
         test="TestC34", engine="B", level="fault_enumeration", components="incremental",
@@ -118,7 +118,7 @@ PROPS = {
              "set of 0-2 queries that panic once (faults then stop) x parallelism 1-4 x history (one client: Run(roots1) then "
              "Run(roots2 + everything that panicked); or two concurrent clients with one Run each) x scheduler tape/disabled hooks; "
              "distinct = distinct (graph, panics, history, trace hash); non-trivial = the graph has a cycle or a panic actually fired",
-        assumptions=_ASSUME_B + ["results computed around an earlier or concurrent panic are not judged for value (callers that propagate Resolve's cancellation error get memoised with it; only termination, panic reporting, non-caching of the panicking query, permits and leaks are judged there)"],
+        assumptions=_ASSUME_B + ["a Run in which no query panicked and which returns no error is judged in full (cycle errors exactly on cyclic closures, right values otherwise) even when another query panicked earlier or in a concurrent Run"],
     ),
     "C35": dict(
         test="TestC35", engine="B", level="exploration", components="experimental", nondeterminism_is_violation=True,
